@@ -25,6 +25,7 @@ func c03(c *Ctx) {
 	c03R6(c)
 	c.Rule("C03.R7", "the release gate is applied to the bindings of both address families (syncPods hands releasePodNotFound the IPv4 and the IPv6 index)")
 	c02FamilyRoles(c, "C03.R7")
+	c03R8(c)
 }
 
 // R1 release gate in releasePodNotFound.
@@ -693,4 +694,39 @@ func c03R6(c *Ctx) {
 		n++
 	}
 	c.Floor("C03.R6", "callers of IPUsage", 1, n)
+}
+
+// R8: the teardown of a sandbox is reported under the pod UID recorded for that sandbox, not
+// under the UID of whatever pod carries the name now.
+func c03R8(c *Ctx) {
+	p := c.P
+	c.Rule("C03.R8", "ReleaseIP hands the release (and so the 'deleted' report) the UID stored with the sandbox being torn down whenever the record has one; the API server's answer for the pod name is only a fallback")
+	rel := p.Func(daemonPkg, "networkService.ReleaseIP")
+	relM := p.Method(eniPkg, "Manager", "Release")
+	if rel == nil || relM == nil {
+		c.Unres("C03.R8", "ReleaseIP / Manager.Release", "not found")
+		return
+	}
+	info := rel.Info()
+	var rec string
+	ast.Inspect(rel.Decl.Body, func(nd ast.Node) bool {
+		if as, ok := nd.(*ast.AssignStmt); ok && len(as.Rhs) == 1 && len(as.Lhs) == 2 && rec == "" {
+			if call, ok := as.Rhs[0].(*ast.CallExpr); ok && lastSeg(calleeName(info, call)) == "getPodResource" {
+				rec = exprString(as.Lhs[0])
+			}
+		}
+		return true
+	})
+	n := 0
+	for _, cs := range p.CallsTo([]*FuncInfo{rel}, relM) {
+		if len(cs.Call.Args) < 2 || rec == "" {
+			c.Undec("C03.R8", "release carries the recorded UID", p.Pos(cs.Call), rel.Key(), "", "stored record / request argument not recognised")
+			continue
+		}
+		n++
+		cni := exprString(cs.Call.Args[1])
+		c.Require("C03.R8", "release carries the recorded UID", rel, cs.Call,
+			rec+".PodInfo == nil || "+rec+`.PodInfo.PodUID == "" || `+cni+".PodUID == "+rec+".PodInfo.PodUID", nil)
+	}
+	c.Floor("C03.R8", "eniMgr.Release calls in ReleaseIP", 1, n)
 }
